@@ -2361,3 +2361,116 @@ def c15_conn_dispatch(env):
 
 REGISTRY.setdefault("C12", []).append(c12_conn_dispatch)
 REGISTRY.setdefault("C15", []).append(c15_conn_dispatch)
+
+
+# ---- C08: the granting side publishes the credit before it wakes the waiters ---------------------
+
+
+def c08_producer_order(env):
+    o = Obligation("c08_grant_publishes_before_waking", "C08")
+    o.desc = "the granting side (Producer::produce, run for every incoming flow): the new credit is stored in the flow state BEFORE notify_waiters() wakes the waiting sends -- the premise under which c08_lost_wakeup shows that no wake-up is lost (a waiter woken first re-reads the old credit, parks again and is never notified)"
+    fn = env.fn(r"^producer::<impl at [^>]*>::produce::\{closure#0\}$")
+    o.functions = [fn.name]
+    o.bounds = ["coroutine body from its initial state through one poll (it has no await point); every path"]
+    o.assumes = ["ProducerState::update_state is where the flow is applied (LinkFlowState::on_incoming_flow, C08's Kani harness)"]
+    ex = env.executor()
+    pin, cor = coroutine_start(env, "@self", {})
+    paths = ex.run(fn, {"_1": pin, "@cor": cor, "@self": mir.Agg("producer")})
+
+    def replay(m):
+        cmds = ["wakeup 3 1", "wakeup 3 4", "wakeup 2 1", "wakeup 1 1"]
+        return cmds, (lambda outs: any(js.get("panic") or not js["second_ready"] for js in outs))
+
+    n = 0
+    for i, p in enumerate(paths):
+        if p.end != "return":
+            continue
+        n += 1
+        names = [c[0] for c in p.calls]
+        upd = [k for k, c in enumerate(names) if re.search(r"ProducerState>::update_state$", c)]
+        ntf = [k for k, c in enumerate(names) if re.search(r"Notify::notify_(waiters|one)$", c)]
+        o.prove(f"path{i}:the-flow-is-applied-exactly-once", ex.assumptions + p.cond, z3.BoolVal(len(upd) == 1), replay=replay)
+        o.prove(f"path{i}:the-waiters-are-woken", ex.assumptions + p.cond, z3.BoolVal(len(ntf) >= 1), replay=replay)
+        o.prove(f"path{i}:credit-is-published-before-the-wake-up", ex.assumptions + p.cond, z3.BoolVal(bool(upd) and bool(ntf) and max(upd) < min(ntf)), replay=replay)
+    o.cover("paths", [z3.BoolVal(n > 0)])
+    return [o]
+
+
+REGISTRY.setdefault("C08", []).append(c08_producer_order)
+
+
+# ---- C10: an aborted delivery is dropped whatever the abort frame carries ------------------------
+
+
+def c10_abort(env):
+    o = Obligation("c10_abort_discards_the_partial_delivery", "C10")
+    o.desc = "ReceiverInner::on_incoming_transfer on a frame with aborted=true: whatever else the frame carries (delivery-tag present, absent or different -- continuation frames may omit it), the buffered partial delivery is discarded, no delivery is produced, and the frame is not appended to anything; so the next delivery starts clean. For aborted=false the frame goes to exactly one of the incomplete / resuming / complete handlers"
+    fn = env.fn(r"^receiver::<impl at [^>]*>::on_incoming_transfer::\{closure#0\}$")
+    o.functions = [fn.name]
+    o.bounds = ["coroutine body from its initial state through one poll; aborted/more/resume symbolic, a partial delivery buffered or not, all other fields of the frame unconstrained (comparisons on them are havocked, i.e. may go either way)"]
+    o.assumes = ["Option::take leaves None behind (std contract)"]
+    ex = env.executor(max_visits=4)
+    R = mir.Agg("receiver")
+    inc = mir.Agg("incomplete_transfer")
+    inc_d = z3.BitVec("pre.incomplete_transfer.is_some", 64)
+    inc["#d"] = inc_d
+    f_inc = env.fidx("ReceiverInner", "incomplete_transfer")
+    R[f_inc] = inc
+    T = mir.Agg("transfer")
+    aborted, more, resume = z3.Bool("transfer.aborted"), z3.Bool("transfer.more"), z3.Bool("transfer.resume")
+    T[env.fidx("Transfer", "aborted")] = aborted
+    T[env.fidx("Transfer", "more")] = more
+    T[env.fidx("Transfer", "resume")] = resume
+
+    def m_take(ex_, st, callee, args, argvals, dty):
+        ref = argvals[0]
+        if not isinstance(ref, mir.Ref):
+            raise mir.Unsupported("Option::take on something that is not a tracked place")
+        cont, key = ex_.resolve(st, list(ref.path))
+        old = cont.get(key)
+        new = mir.Agg("None")
+        new["#d"] = z3.BitVecVal(0, 64)
+        cont[key] = new
+        return old if old is not None else mir.Agg("taken")
+
+    ex.models = [(r"Option::<Box<IncompleteTransfer>>::take$", m_take)]
+    pin, cor = coroutine_start(env, "@self", {1: T, 2: mir.Agg("payload")})
+    paths = ex.run(fn, {"_1": pin, "@cor": cor, "@self": R})
+    hyp = ex.assumptions + [z3.ULE(inc_d, 1)]
+
+    def replay(m):
+        cmds = [f"xfer {sc} {k}" for sc in (2, 1) for k in (0, 5, 9)] + ["xfer 0 5", "xfer 3 6"]
+        return cmds, (lambda outs: any(js.get("panic") or js["deliveries"] != 1 or not (js["last_is_delivery"] and js["last_body_ok"] and js["last_id_ok"]) or js["buffered_at_end"] for js in outs))
+
+    handlers = r"::(on_incomplete_transfer|on_resuming_transfer|on_complete_transfer)(::<.*>)?$"
+    n_abort = 0
+    for i, p in enumerate(paths):
+        if p.end != "return":
+            continue
+        rdy, is_ok = poll_ready_result(p.ret)
+        H = hyp + p.cond
+        nh = count_calls(p, handlers)
+        recv_now = p.locals["@self"]
+        post = recv_now.get(f_inc) if isinstance(recv_now, mir.Agg) else None
+        post_d = post.get("#d") if isinstance(post, mir.Agg) else None
+        # aborted frames (a path on which the receiver was handed to an opaque handler has no known
+        # buffer state: such a path must not be an abort path at all)
+        o.prove(f"path{i}:abort-goes-to-no-handler", H + [aborted], z3.BoolVal(nh == 0), replay=replay)
+        o.prove(f"path{i}:abort-leaves-nothing-buffered", H + [aborted], (post_d == 0) if post_d is not None else z3.BoolVal(False), replay=replay)
+        if z3.is_true(z3.simplify(rdy)) and is_ok is not None:
+            inner = p.ret[("as", "Ready")][0]
+            okp = inner.get(("as", "Ok"))
+            dd = okp[0].get("#d") if isinstance(okp, mir.Agg) and isinstance(okp.get(0), mir.Agg) else None
+            if dd is not None:
+                o.prove(f"path{i}:abort-yields-no-delivery", H + [aborted, is_ok], dd == 0, replay=replay)
+            o.prove(f"path{i}:abort-is-not-an-error", H + [aborted], is_ok, replay=replay)
+        o.prove(f"path{i}:at-most-one-handler", H, z3.BoolVal(nh <= 1), replay=replay)
+        s = z3.Solver()
+        s.add(*(H + [aborted]))
+        if s.check() == z3.sat:
+            n_abort += 1
+    o.cover("an aborting path exists", [z3.BoolVal(n_abort > 0)])
+    return [o]
+
+
+REGISTRY.setdefault("C10", []).append(c10_abort)
